@@ -19,7 +19,7 @@ def main(c):
         Cfg("w3", ["p3"], ["a1", "b1", "c1"], {"A": [0], "B": [0], "C": [0]}, ["c1", "c2", "c3", "c4", "cS", "c6", "cL", "cN"], ["n1", "n2"],
             filt=(False, True), ops=NO_DEFER),
         # every session role: external, route-server client, internal, route-reflector client, confederation-external
-        Cfg("w4", ["p1", "p2"], ["a1", "b1", "d1", "e1", "f1"], {"A": [0], "B": [0], "D": [0], "E": [0], "F": [0]},
+        Cfg("w4", ["p1", "p2"], ["a1", "b1", "c1", "d1", "e1", "f1"], {"A": [0], "B": [0], "C": [0], "D": [0], "E": [0], "F": [0]},
             ["c1", "c2", "c4", "c8", "c9"], ["n1"], filt=(False,), ops=NO_DEFER),
     ]
     if thorough:
